@@ -15,19 +15,18 @@ property they target; {sib} by a sibling check where the change needs what only
 the sibling has - a transport fault or cut (C16), a second overlapping
 connection (C19), cancellation (C20), retained results (C17), a reset
 differential (C18), a pong (C08), an RSV1 rule of the message state (C13)),
-{no} not caught by design ({', '.join(sorted(nos))}: C12-m3 and C12-m61 only show
-through usage outside the documented contract of `wsflate.Writer`, §8;
+{no} not caught by design ({', '.join(sorted(nos))}:
 C16-m32 is `ws.ReadHeader` answering `io.EOF` for a cut inside a header with
 no message open, which only has to be an error; C19-m51 changes how messages
 are cut into fragments and nothing a session observes; C06-m69 makes a
-zero-length copy followed by Flush send nothing, which is not demanded; C05-m65 wraps a protocol
-error with %w, which errors.As and errors.Is - the way the checks classify
-errors - still recognise). Waves 5-9 asked for
+zero-length copy followed by Flush send nothing, which is not demanded;
+C05-m65 wraps a protocol error with %w, which errors.As and errors.Is - the
+way the checks classify errors - still recognise). Waves 5-9 asked for
 refactorings, option combinations, transport or scheduling conditions, broken
 doc-comment guarantees, cleanup/resource slips, arithmetic and boundary slips,
 ordering of side effects, option-field defaults and sibling entry points that
 diverge; 27, 26, 23, 20 and 22 of their 52 changes were missed by the checks as
-they stood (counting those that only a sibling caught as caught). Waves 10-18
+they stood (counting those that only a sibling caught as caught). Waves 10-19
 (this session) asked for performance optimisations, hardening and clean-up
 slips, two cooperating edits, state-carrying slips, API evolution, partial
 progress and error paths, resource lifecycle, boundary arithmetic,
@@ -36,8 +35,9 @@ helpers, modernisation slips, new configuration knobs, observability hooks,
 bug fixes gone wrong, ordering and representation changes, corners of the
 API, less-travelled functions around the anchors, the library's use of its
 dependencies' contracts, and behaviour keyed on the dynamic type, shape or
-magnitude of what the caller passes; 5, 6, 5, 9, 4, 2, 3, 8 and 14 were missed
-on first contact, the others were caught by the checks as they stood - many of the
+magnitude of what the caller passes, and the idioms of the package's own
+README, doc comments and example server; 5, 6, 5, 9, 4, 2, 3, 8, 14 and 2
+(of 48: one sub-agent of wave 19 failed) were missed on first contact, the others were caught by the checks as they stood - many of the
 later proposals repeat earlier ones, which is itself a sign of saturation, and
 the themes of waves 17 and 18 (what io, bufio, bytes, net/http,
 compress/flate, the pools and context promise and do not promise; fast paths
@@ -48,7 +48,7 @@ temporary errors that hand over bytes, destinations without ReadFrom,
 slices; then in-memory standard readers as sources, helpers over bufio,
 Reader values copied between messages, pings that are no UTF-8, deadline
 errors that wrap a cause, headers with line folds, rejection bodies above
-64 KiB, payloads compressing 1000:1. Two of its scenarios failed on the *unchanged* tree and became
+64 KiB, payloads compressing 1000:1. Two of the scenarios of wave 17 failed on the *unchanged* tree and became
 defects 13 and 14 of §7. Every miss led to an
 extension of a workload or fault mix (never to a loosened oracle); they are
 named in the note column and in §8. Three misses of waves 3-9 and five of
